@@ -15,7 +15,9 @@ RULE = ("case = recipe (base, mutations): base in {empty, random bytes, pinned c
         "'_'+byte, very long line, deep nesting, #include of self or of a missing file, unbalanced #if/#endif, #line with a huge number, #pile "
         "toggles}; the text is compiled with aldor -Fap -Fao. Oracle for every input: the process ends by exit (no signal), prints no fault / "
         "internal-bug text, stays within the CPU limit (reproduced 3 times), exits non-zero exactly when it printed an (Error)/(Fatal Error) line; "
-        "a recipe that is lexically certain to be invalid must yield a diagnostic. Non-trivial = the input got past the scanner (a non-empty .ai "
+        "a second family appends / inserts one of 19 certainly invalid constructs (unterminated #if chains in 6 shapes, stray #endif/#else/#elseif, "
+        "#include of a missing file, #error, unterminated string, unbalanced brace / parenthesis, circular macros in 4 shapes) into each generated "
+        "valid program: it must be rejected with an (Error) line, non-zero exit, no .ao, no fault. Non-trivial = the input got past the scanner (a non-empty .ai "
         "was written... approximated by: no scanner-level error) and differs from its base; distinct = hash of the input bytes.")
 ASSUMPTIONS = ["CPU limit 20 s per compilation (median 0.1 s); a hit must reproduce 3 times to count as a hang",
                "'known invalid' is asserted only for mutations whose invalidity is lexical and certain"]
@@ -143,6 +145,93 @@ def check_input(tc, data, ev, lib="aldor", confirm=True):
                 {"input_hex": data.hex(), "lib": lib}), haserr, r.rc
 
 
+# ---- inputs that are certainly invalid: a generated valid program plus one construct every version of the language rejects
+DECL = b"x9Q: MachineInteger := (1@MachineInteger);\n"
+CERTAIN = {
+    # name: (placement, text); placement: "eof" = appended, "line" = inserted before a drawn line, "top" = inserted before the final "main();"
+    "if-eof": ("eof", b"#if FooQ\n" + DECL),
+    "if-else-eof": ("eof", b"#assert FooQ\n#if FooQ\n" + DECL + b"#else\ny9Q: MachineInteger := (2@MachineInteger);\n"),
+    "if-taken-elseif-eof": ("eof", b"#assert FooQ\n#if FooQ\n" + DECL + b"#elseif BarQ\ny9Q: MachineInteger := (2@MachineInteger);\n"),
+    "if-untaken-elseif-eof": ("eof", b"#if FooQ\n" + DECL + b"#elseif BarQ\ny9Q: MachineInteger := (2@MachineInteger);\n"),
+    "if-elseif-else-eof": ("eof", b"#assert BarQ\n#if FooQ\n" + DECL + b"#elseif BarQ\n#else\n"),
+    "if-nested-eof": ("eof", b"#assert FooQ\n#if FooQ\n#if BarQ\n" + DECL + b"#endif\n"),
+    "endif-alone": ("line", b"#endif\n"),
+    "else-alone": ("line", b"#else\n"),
+    "elseif-alone": ("line", b"#elseif FooQ\n"),
+    "include-missing": ("line", b'#include "nonexistent9Q.as"\n'),
+    "error-directive": ("line", b'#error "stop here 9Q"\n'),
+    "string-open": ("eof", b's9Q: String := "abc;\n'),
+    "brace-open": ("eof", b"f9Q(): MachineInteger == { (1@MachineInteger) \n"),
+    "brace-close": ("eof", b"f9Q(): MachineInteger == (1@MachineInteger) };\n"),
+    "paren-open": ("eof", b"x9Q: MachineInteger := ((1@MachineInteger) + (2@MachineInteger);\n"),
+    "macro-self": ("top", b"macro f9Q == f9Q + (1@MachineInteger);\nx9Q: MachineInteger := f9Q;\n"),
+    "macro-mutual": ("top", b"macro f9Q == g9Q + (1@MachineInteger);\nmacro g9Q == f9Q * (2@MachineInteger);\nx9Q: MachineInteger := g9Q;\n"),
+    "macro-param": ("top", b"macro f9Q(a) == f9Q(a + (1@MachineInteger));\nx9Q: MachineInteger := f9Q((2@MachineInteger));\n"),
+    "macro-arrow": ("top", b"f9Q ==> f9Q + (1@MachineInteger);\nx9Q: MachineInteger := f9Q;\n"),
+}
+
+
+def build_certain(src, name, pos):
+    placement, text = CERTAIN[name]
+    lines = src.split(b"\n")
+    if lines and lines[-1] == b"":
+        lines.pop()
+    if placement == "eof":
+        out = lines + [text.rstrip(b"\n")]
+    elif placement == "top":
+        k = max(i for i, l in enumerate(lines) if l.strip() == b"main();") if any(l.strip() == b"main();" for l in lines) else len(lines)
+        out = lines[:k] + [text.rstrip(b"\n")] + lines[k:]
+    else:
+        k = 3 + pos % max(1, len(lines) - 2)      # after the prelude
+        out = lines[:k] + [text.rstrip(b"\n")] + lines[k:]
+    return b"\n".join(out) + b"\n"
+
+
+def check_certain(tc, data, name, ev):
+    h = hashlib.sha256(data).hexdigest()[:16]
+    with R.WorkDir("c07c-" + h) as wd:
+        R.write(os.path.join(wd, "in.as"), data)
+        r = aldor.compile_(tc, wd, ["in.as"], ["-Fap", "-Fao"], cpu=CPU)
+        t = r.text()
+        left = [o for o in ("in.ao",) if os.path.exists(os.path.join(wd, o))]
+    case = {"input_hex": data.hex(), "certain": name}
+    site = ""
+    if r.cpu_hit or "Exceeded time limit imposed" in t:
+        kind, what = "hang", "exceeded the CPU limit"
+    elif r.sig is not None or aldor.has_fault(r):
+        kind, what = "fault", "the compiler faulted instead of reporting the error"
+        site = aldor.fault_site(tc, t) or ("signal%s" % r.sig)
+    elif r.rc == 0 or not aldor.has_error(t):
+        kind, what = "invalid-accepted", "exit status %d and %s (Error) line" % (r.rc, "an" if aldor.has_error(t) else "no")
+    elif left:
+        kind, what = "output-left", "rejected, but %s was written" % left
+    else:
+        return None
+    return Fail({"kind": kind, "site": site, "certain": name, "phase": "front", "accepted": "certainly-invalid",
+                 "what": "certainly invalid input (%s): %s: %s" % (name, what, t[-200:].replace("\n", " | "))}, case)
+
+
+def _certain_worker(args):
+    tc, seed, idx, gens = args
+    import random
+    rnd = random.Random(derive_seed(seed, "c07certain", idx))
+    ev = Ev()
+    fails = []
+    names = sorted(CERTAIN)
+    for j, src in enumerate(gens):
+        if j % 16 != idx:
+            continue
+        for name in names:
+            data = build_certain(src, name, rnd.randrange(10 ** 6))
+            f = check_certain(tc, data, name, ev)
+            ev.case("certain|%s|%s" % (name, hashlib.sha256(data).hexdigest()[:12]), True, sample={"certain": name, "input_tail": data[-200:].decode("latin-1")} if len(ev.samples) < 1 else None,
+                    classes=["certain_" + name, "certain_rejected" if f is None else "certain_" + f.desc["kind"]])
+            if f is not None:
+                fails.append(f)
+                return result(ev, fails)
+    return result(ev, fails)
+
+
 def _worker(args):
     tc, seed, idx, n, bases, gens = args
     ev = Ev()
@@ -211,11 +300,19 @@ def run(ctx):
     gens = gen_sources(ctx.seed, 40)
     n = ctx.n(1500, 12000)
     ctx.ev.extra["corpus_bases"] = len(bases)
+    ctx.pmap(_certain_worker, [(ctx.tc, ctx.seed, i, gens) for i in range(16)])
+    if ctx.fails:
+        return
     ctx.pmap(_worker, [(ctx.tc, ctx.seed, i, n, bases, gens) for i in range(16)])
 
 
 def replay(ctx, case):
     data = bytes.fromhex(case["input_hex"])
+    if case.get("certain"):
+        f = check_certain(ctx.tc, data, case["certain"], Ev())
+        if f is not None:
+            f.replay = case
+        return f
     f, _, _ = check_input(ctx.tc, data, Ev(), lib=case.get("lib", "aldor"))
     if f is not None:
         f.replay = case
